@@ -202,7 +202,13 @@ void Checkable::FireSuppressedNotifications()
 			 * If any of these conditions is not met, processing the suppressed notification is further delayed.
 			 */
 			if (!state_suppressed && GetStateType() == StateTypeHard && !IsLikelyToBeCheckedSoon() && !wasLastParentRecoveryRecent.Get()) {
-				if (cr->GetState() != GetStateBeforeSuppression()) {
+				bool differs = cr->GetState() != GetStateBeforeSuppression();
+
+				/* state_before_suppression holds a raw service state; for hosts compare what the host reports (Up/Down). */
+				if (dynamic_cast<Host*>(this))
+					differs = Host::CalculateState(cr->GetState()) != Host::CalculateState(GetStateBeforeSuppression());
+
+				if (differs) {
 					Checkable::OnNotificationsRequested(this, type, cr, "", "", nullptr);
 				}
 				subtract |= NotificationRecovery|NotificationProblem;
